@@ -47,8 +47,8 @@ def plain_chain_should_succeed(path, before):
     '/'); walking it from the root, every component that exists is a real directory (not a link) up to the first missing one,
     and nothing exists after that.  Then mkdir_all (as root) has nothing to refuse."""
     comps = path.strip(b"/").split(b"/") if path.strip(b"/") else []
-    if not comps or any(c in (b"", b".", b"..") for c in comps) or path.startswith(b"//") or path.endswith(b"//"):
-        return False
+    if not comps or any(c in (b"", b".", b"..") or len(c) > 255 for c in comps) or path.startswith(b"//") or path.endswith(b"//"):
+        return False        # (a component longer than NAME_MAX is answered ENAMETOOLONG: no reason to succeed)
     cur = b"root"
     missing = False
     for c in comps:
